@@ -1057,7 +1057,8 @@ NS_ROOTS = ['designer_policy_v0', 'custom_root', 'custom_root', 'ns2', 'ns2']
 
 @st.composite
 def policy_ns_strategy(draw):
-  kind = draw(st.sampled_from(['grid', 'shuffled_grid', 'quasi']))
+  kind = draw(st.sampled_from(['grid', 'shuffled_grid', 'quasi',
+                              'serializable_grid']))
   return {
       'designer': kind,
       'space': draw(_det_space()),
@@ -1090,7 +1091,37 @@ def check_policy_ns(case):
     factory = grid.GridSearchDesigner.from_problem
     seed = case['seed'] if kind == 'shuffled_grid' else None
 
+  if kind == 'serializable_grid':
+    # SerializableDesignerPolicy (the other policy class with an `ns_root`
+    # argument) hosts a harness designer: a grid that restores itself through
+    # the `recover` classmethod.
+    from vizier import algorithms as vza
+
+    class SerGrid(vza.SerializableDesigner):
+
+      def __init__(self):
+        self._g = grid.GridSearchDesigner.from_problem(problem)
+
+      def update(self, completed, all_active):
+        self._g.update(completed, all_active)
+
+      def suggest(self, count=None):
+        return self._g.suggest(count)
+
+      def dump(self):
+        return self._g.dump()
+
+      @classmethod
+      def recover(cls, metadata):
+        d = cls()
+        d._g.load(metadata)  # raises DecodeError when there is no state
+        return d
+
   def make(sup):
+    if kind == 'serializable_grid':
+      return dp.SerializableDesignerPolicy(
+          sup.study_config, sup, lambda p, **kw: SerGrid(), SerGrid,
+          ns_root=case['ns_root'])
     return dp.PartiallySerializableDesignerPolicy(
         sup.study_config, sup, factory, ns_root=case['ns_root'], seed=seed)
 
@@ -1250,6 +1281,6 @@ def families(tier):
                   budget={'quick': 240, 'thorough': 4000},
                   shards={'quick': 4, 'thorough': 16},
                   required_classes=('grid', 'shuffled_grid', 'quasi',
-                                    'ns_default', 'restart_ns_custom',
+                                    'serializable_grid', 'ns_default', 'restart_ns_custom',
                                     'restarts_many')),
   ]
